@@ -82,6 +82,17 @@ pub fn replay_case(id: &str, case: &J) -> Option<Vec<String>> {
     if case.get("kind").and_then(|k| k.as_str()) == Some("plain-streams") && case.get("values").is_some() {
         return replay_plain_streams(&case);
     }
+    if case.get("kind").and_then(|k| k.as_str()) == Some("stat-history") {
+        // the histories are a closed list: run them again and report the recorded one if it fails again
+        let (stat, hist, shape) = (case.get("stat")?.as_str()?.to_string(), case.get("history")?.as_str()?.to_string(), case.get("shape")?.as_usizes()?);
+        let (_, v) = c06::stat_after_histories(id);
+        return Some(
+            v.into_iter()
+                .filter(|(_, _, j)| j.get("stat").and_then(|x| x.as_str()) == Some(stat.as_str()) && j.get("history").and_then(|x| x.as_str()) == Some(hist.as_str()) && j.get("shape").and_then(|x| x.as_usizes()) == Some(shape.clone()))
+                .map(|(k, w, _)| format!("{k} :: {w}"))
+                .collect(),
+        );
+    }
     if case.get("kind").and_then(|k| k.as_str()) == Some("spelling") {
         return replay_spelling(&case);
     }
